@@ -303,7 +303,7 @@ def depth_cases_for(L):
                     else: pre += [0xBF, 0x01]; post = [0xFF] + post
                 out.append(pre + list(rng.choice(leaves)) + post)
         # a payload far larger than the thread's stack: stack use must be proportional to L, not to sizes
-        big = 300 * 1024
+        big = 200 * 1024
         out.append([0x5A] + list(big.to_bytes(4, "big")) + [0x41] * big)
         out.append([0xC1, 0x81, 0x7A][: min(3, L + 1)][-1:] + [] if False else ([0x81] if L >= 1 else []) + [0x7A] + list(big.to_bytes(4, "big")) + [0x61] * big)
         # truncated deep inputs (error path unwinds a full stack)
